@@ -40,6 +40,8 @@ func main() {
 	switch os.Args[1] {
 	case "worker":
 		kernel.ExitAfterResponse = func() bool { return ee.ExitAfter }
+		// backstop for the in-worker memory bound: a runaway handler must not take the machine down
+		syscall.Setrlimit(syscall.RLIMIT_AS, &syscall.Rlimit{Cur: 12 << 30, Max: 12 << 30})
 		if pf := os.Getenv("VERIF_EE_CPUPROFILE"); pf != "" {
 			if f, err := os.Create(fmt.Sprintf("%s.%d", pf, os.Getpid())); err == nil {
 				pprof.StartCPUProfile(f)
@@ -78,12 +80,12 @@ func check(prop string) int {
 	case "C14":
 		// quick: every request once in every state class (+ repeat family), then the reduced alphabet of state-changing
 		// requests from every state reached; thorough: depth 2 full, depth 3 reduced
-		p = &ee.Plan{Property: "C14", Sides: []string{"R", "C"}, FullDepth: 1, Depth: 2, Repeat: 8, Budget: envDur("VERIF_EE_BUDGET", 150*time.Second), Alphabet: ee.Alphabet, Classes: classes}
+		p = &ee.Plan{Property: "C14", Sides: []string{"R", "C"}, FullDepth: 1, Depth: 2, Repeat: 8, RepeatDepth: 1, Budget: envDur("VERIF_EE_BUDGET", 170*time.Second), Alphabet: ee.Alphabet, Classes: classes}
 		if th {
-			p.FullDepth, p.Depth, p.Budget = 2, 3, envDur("VERIF_EE_BUDGET", 21*time.Minute)
+			p.FullDepth, p.Depth, p.RepeatDepth, p.ExpandAll, p.Budget = 2, 3, 2, true, envDur("VERIF_EE_BUDGET", 21*time.Minute)
 		}
 	case "C17rest", "C17":
-		p = &ee.Plan{Property: "C17", Sides: []string{"R"}, FullDepth: 1, Depth: 2, Repeat: 1, C17: true, Budget: envDur("VERIF_EE_BUDGET", 100*time.Second), Classes: classes,
+		p = &ee.Plan{Property: "C17", Sides: []string{"R"}, FullDepth: 1, Depth: 2, Repeat: 1, RepeatDepth: 0, ExpandAll: true, C17: true, Budget: envDur("VERIF_EE_BUDGET", 100*time.Second), Classes: classes,
 			Alphabet:   ee.C17Alphabet,
 			OnlyOracle: func(o string) bool { return strings.HasPrefix(o, "c17rest") }}
 		if th {
